@@ -14,10 +14,30 @@ def waiting (p : Pc) : Bool :=
   | .wait | .tryWait | .twait _ => true
   | _ => false
 
+/-- inside the ENOSYS polling fallback of wait(timeout) -/
+def polling (p : Pc) : Bool :=
+  match p with
+  | .pollTry _ _ | .pollSleep _ _ _ => true
+  | _ => false
+
+/-- the deadline record a thread inside wait(timeout) carries (fallback included) -/
+def Pc.dl : Pc → Option Deadline
+  | .twait d | .pollTry d _ | .pollSleep d _ _ => some d
+  | _ => none
+
+/-- termination measure of the polling loop: twice the milliseconds of the time-out not yet accounted for by the loop variable -/
+def pollFuel : Pc → Nat
+  | .pollTry d i => 2 * (d.ms - i) + 2
+  | .pollSleep d i _ => 2 * (d.ms - i) + 1
+  | _ => 0
+
+/-- anywhere inside wait / tryWait / wait(timeout), the polling fallback included -/
+def inCall (p : Pc) : Bool := waiting p || polling p
+
 /-- one step from a state with a positive count: a thread inside wait / tryWait / wait(timeout) stays there or returns;
     it returns true unless an untimed wait is interrupted (EINTR, documented: "whether it was decremented") -/
 theorem waiting_succ {s s' : St} {t u : Tid} {a : Act Op} (hs : step s t a = some s') (hc : 0 < s.count)
-    (p : Pc) (hw : waiting p = true) (hp : s.pc u = p) :
+    (p : Pc) (hw : waiting p = true) (hp : s.pc u = p) (hno : ¬ (t = u ∧ a = .run 3)) :
     s'.pc u = p ∨ (s'.pc u = .idle ∧ (s'.ret u = some (.bool true) ∨ (p = .wait ∧ s'.ret u = some (.bool false)))) := by
   cases a with
   | tick q => simp [step] at hs; subst hs; exact Or.inl hp
@@ -33,7 +53,7 @@ theorem waiting_succ {s s' : St} {t u : Tid} {a : Act Op} (hs : step s t a = som
     simp only [step] at hs
     cases hpc : s.pc t <;> simp only [hpc] at hs
     all_goals
-      try simp only [done] at hs
+      try simp only [done, goto] at hs
       (repeat' split at hs) <;> simp at hs <;> (try subst hs) <;>
         (by_cases hut : u = t <;> grind [upd, waiting])
 
@@ -42,7 +62,7 @@ theorem takes_leaves {s s' : St} {u : Tid} (hs : step s u (.run 0) = some s') (h
   simp only [step] at hs
   cases hpc : s.pc u <;> simp only [hpc] at hs
   all_goals
-    try simp only [done] at hs
+    try simp only [done, goto] at hs
     (repeat' split at hs) <;> simp at hs <;> (try subst hs) <;> grind [upd, waiting]
 
 theorem prog_of_waiting {s : St} {u : Tid} (hc : 0 < s.count) (hw : waiting (s.pc u) = true) : prog s u = true := by
@@ -53,6 +73,7 @@ theorem prog_of_waiting {s : St} {u : Tid} (hc : 0 < s.count) (hw : waiting (s.p
     the count down to zero in between — what matters is what this waiter finds when it looks). -/
 theorem waiter_eventually_returns' (r : Run St Op step) (hwf : WeakFair r prog) (n : Nat) (u : Tid)
     (hw : waiting ((r.st n).pc u) = true)
+    (hno : ∀ m, n ≤ m → ¬ (r.who m = u ∧ r.act m = .run 3))
     (hpos : ∀ m, n ≤ m → (r.st m).pc u = (r.st n).pc u → 0 < (r.st m).count) :
     ∃ m, n ≤ m ∧ (r.st m).pc u = .idle ∧
       ((r.st m).ret u = some (.bool true) ∨ ((r.st n).pc u = .wait ∧ (r.st m).ret u = some (.bool false))) := by
@@ -62,7 +83,7 @@ theorem waiter_eventually_returns' (r : Run St Op step) (hwf : WeakFair r prog) 
       have hok := r.ok m
       rw [ht.1, ht.2] at hok
       exact takes_leaves hok (hpos m hm hP) _ hw hP)
-  rcases waiting_succ (r.ok m) (hpos m hm hP) _ hw hP with h | h
+  rcases waiting_succ (r.ok m) (hpos m hm hP) _ hw hP (hno m hm) with h | h
   · exact absurd h hN
   · exact ⟨m + 1, by omega, h.1, h.2⟩
 
@@ -70,10 +91,11 @@ theorem waiter_eventually_returns' (r : Run St Op step) (hwf : WeakFair r prog) 
     which the count stays positive does not stay blocked: it returns, and it returns true unless an untimed `wait`
     is interrupted by EINTR. -/
 theorem waiter_eventually_returns (r : Run St Op step) (hwf : WeakFair r prog) (n : Nat)
-    (hpos : ∀ m, n ≤ m → 0 < (r.st m).count) (u : Tid) (hw : waiting ((r.st n).pc u) = true) :
+    (hpos : ∀ m, n ≤ m → 0 < (r.st m).count) (u : Tid) (hw : waiting ((r.st n).pc u) = true)
+    (hno : ∀ m, n ≤ m → ¬ (r.who m = u ∧ r.act m = .run 3)) :
     ∃ m, n ≤ m ∧ (r.st m).pc u = .idle ∧
       ((r.st m).ret u = some (.bool true) ∨ ((r.st n).pc u = .wait ∧ (r.st m).ret u = some (.bool false))) :=
-  waiter_eventually_returns' r hwf n u hw (fun m hm _ => hpos m hm)
+  waiter_eventually_returns' r hwf n u hw hno (fun m hm _ => hpos m hm)
 
 theorem reach_run {c now e : Nat} (r : Run St Op step) (h0 : Reach c now e (r.st 0)) : ∀ k, Reach c now e (r.st k)
   | 0 => h0
@@ -86,11 +108,12 @@ theorem reach_run {c now e : Nat} (r : Run St Op step) (h0 : Reach c now e (r.st
     untimed wait is interrupted by EINTR).  By conservation that surplus IS the count `u` finds. -/
 theorem waiter_returns_if_enough_signals {c now e : Nat} (r : Run St Op step) (h0 : Reach c now e (r.st 0))
     (hwf : WeakFair r prog) (n : Nat) (u : Tid) (hw : waiting ((r.st n).pc u) = true)
+    (hno : ∀ m, n ≤ m → ¬ (r.who m = u ∧ r.act m = .run 3))
     (henough : ∀ m, n ≤ m → (r.st m).pc u = (r.st n).pc u →
       (r.st m).succ + (r.st n).posts < (r.st n).count + (r.st m).posts + (r.st n).succ) :
     ∃ m, n ≤ m ∧ (r.st m).pc u = .idle ∧
       ((r.st m).ret u = some (.bool true) ∨ ((r.st n).pc u = .wait ∧ (r.st m).ret u = some (.bool false))) := by
-  apply waiter_eventually_returns' r hwf n u hw
+  apply waiter_eventually_returns' r hwf n u hw hno
   intro m hm hP
   have h1 := (inv_reach (reach_run r h0 m)).cons
   have h2 := (inv_reach (reach_run r h0 n)).cons
